@@ -52,7 +52,11 @@ func fixOriginFuncToTrampoline(origin uintptr, trampoline uintptr, jumpInstSize 
 		return 0, err
 	}
 
-	if fixedDataSize < len(fixOriginData) {
+	// the trampoline receives the relocated instructions — also when the whole function has been consumed
+	// (then no jump back is needed, but the raw bytes read above must not be written)
+	originSize := len(fixOriginData)
+	fixOriginData = fixedData
+	if fixedDataSize < originSize {
 		// 追加跳转到原函数指令到修复后指令的末尾
 		// append jump back to origin func position where next to the broken instructions
 		jumpBackData := jmpToOriginFunctionValue(
